@@ -29,7 +29,7 @@ pub fn render_tree(case: &Case, tree: &Tree, const_payload: bool) -> String {
                 return name;
             }
             if style.named {
-                let parts: Vec<String> = used.iter().map(|i| format!("f{}: {}", i, render_tree(case, &kids[*i], const_payload))).collect();
+                let parts: Vec<String> = used.iter().map(|i| format!("{}: {}", case.rendered.names.fields[p][*i].clone().unwrap_or_default(), render_tree(case, &kids[*i], const_payload))).collect();
                 format!("{} {{ {} }}", name, parts.join(", "))
             } else {
                 let parts: Vec<String> = used.iter().map(|i| render_tree(case, &kids[*i], const_payload)).collect();
@@ -77,6 +77,21 @@ pub fn collect(specs: &[Spec], depth_deep: bool, extra_presentations: u64) -> (V
     for spec in specs {
         let mut n = 0u64;
         let before = out.len();
+        let mut add_with = |gr: Grammar, pres: Presentation, out: &mut Vec<RealCase>, n: &mut u64| {
+            *n += 1;
+            let case = Case::new(gr, with_debug(pres));
+            if let Gen::Ok(text) = generate(&case.rendered.source) {
+                out.push(RealCase { case, text, depth: 6 });
+            }
+        };
+        if let Spec::PSpace { max_fields, recursion } = spec {
+            for p in crate::pspace::patterns(*max_fields, *recursion) {
+                let (gr, pres, _) = crate::pspace::build(&p);
+                add_with(gr, pres, &mut out, &mut n);
+            }
+            scopes.push(json!({"name": spec.name(), "size": n, "accepted_modules": out.len() - before, "completed": true, "exhaustive": true, "layer": "real code (rustc-compiled parse)"}));
+            continue;
+        }
         let mut add = |gr: Grammar, idx: u64, out: &mut Vec<RealCase>| {
             n += 1;
             for v in 0..=extra_presentations {
@@ -106,6 +121,7 @@ pub fn collect(specs: &[Spec], depth_deep: bool, extra_presentations: u64) -> (V
                     add(gr, if j == 0 { u64::MAX } else { j as u64 | 1 << 60 }, &mut out);
                 }
             }
+            Spec::PSpace { .. } => unreachable!(),
         }
         scopes.push(json!({"name": spec.name(), "size": n, "accepted_modules": out.len() - before, "completed": true, "exhaustive": true, "layer": "real code (rustc-compiled parse)"}));
     }
